@@ -566,57 +566,10 @@ def r6_filter_ownership(chk: Check) -> None:
 
 
 # --------------------------------------------------------------------------------------------- R7
-def _mentions_filters(P: Project, fn: FuncInfo, depth: int = 0, seen: set[str] | None = None) -> ast.AST | None:
-    """A node in fn (or a repo callee, depth <= 2) that consults the user's filters (_should_skip / filter_set)."""
-    seen = seen if seen is not None else set()
-    if fn.qualname in seen:
-        return None
-    seen.add(fn.qualname)
-    for n in walk_body(fn.node, into_nested=True):
-        if isinstance(n, ast.Attribute) and n.attr in ("_should_skip", "filter_set"):
-            return n
-    if depth < 2:
-        for c in body_calls(fn, into_nested=True):
-            r = P.resolve_call(fn, c)
-            if r and r[0] == "func":
-                hit = _mentions_filters(P, r[1], depth + 1, seen)  # type: ignore[arg-type]
-                if hit is not None:
-                    return hit
-    return None
-
-
 def r7_documented_methods(chk: Check) -> None:
-    chk.rule("C07.R7", "PRODUCER/CONSUMER(documented methods of a path): the coverage phase probes 'unspecified' HTTP methods = candidates minus the methods DOCUMENTED for the path, taken from the direct-access map schema[path]; that map enumerates the raw path item and never applies the user's filters (a documented-but-excluded method must not be probed)", floor=3)
-    P = chk.project
-    fn = P.func("generation/hypothesis/builder.py:_iter_coverage_cases")
-    subs = [n for n in walk_body(fn.node) if isinstance(n, ast.BinOp) and isinstance(n.op, ast.Sub) and "unexpected_methods" in names_in(n.left)]
-    if not subs:
-        chk.undecided("C07.R7", fn, "unexpected_methods - <documented methods>", "the subtraction is not recognised", fn.loc())
-        return
-    right = subs[0].right
-    m = pmatch("set($X)", right)
-    src = m["X"] if m else right
-    via_map = isinstance(src, ast.Subscript) and unparse(src.value).endswith(".schema") and unparse(src.slice).endswith(".path")
-    if via_map:
-        chk.ok("C07.R7", fn, "documented methods = set(operation.schema[operation.path])", "", fn.loc(subs[0]))
-    elif "paths" in unparse(src, 200) or "raw" in unparse(src, 200):
-        chk.ok("C07.R7", fn, "documented methods come from the raw schema", unparse(src, 80), fn.loc(subs[0]))
-        return
-    else:
-        chk.undecided("C07.R7", fn, "documented methods of the path", f"source `{unparse(src, 80)}` not recognised", fn.loc(subs[0]))
-        return
-    for meth in ("__iter__", "__len__"):
-        f = P.maybe_func(f"{OAS}:MethodMap.{meth}")
-        if f is None:
-            chk.undecided("C07.R7", OAS, f"MethodMap.{meth}", "direct-access map method not found", OAS)
-            continue
-        hit = _mentions_filters(P, f)
-        if hit is None:
-            chk.ok("C07.R7", f, f"MethodMap.{meth} enumerates the raw path item (filter-independent)", "", f.loc())
-        else:
-            chk.violation("C07.R7", f, f"MethodMap.{meth} enumerates the raw path item (filter-independent)",
-                          "the direct-access map hides operations excluded by the user's filters; the coverage phase computes `unexpected_methods - set(schema[path])`, so a documented but excluded method (DELETE after --exclude-method DELETE) is probed as an 'unspecified method': requests are sent to an excluded operation",
-                          f.loc(hit))
+    from . import shared
+
+    shared.documented_methods_rule(chk, "C07.R7", "filters")
 
 
 def rules(tier: str) -> list:  # type: ignore[type-arg]
